@@ -150,6 +150,47 @@ pub fn run(toks: &[&str], out: &mut String) {
                 }
             }
         }
+        // toarray SHAPE a i : View::to_array of the view at position i of axis a - the copy's shape and data, `get` at
+        // every index of that shape (enumerated here, not by the library), and the items of the copy's own views at the
+        // last position of each of its axes
+        "toarray" => {
+            let a = ramp(&parse_list(toks[1]));
+            let ax: usize = toks[2].parse().unwrap();
+            let i: usize = toks[3].parse().unwrap();
+            match a.get_axis(Axis(ax), i) {
+                None => out.push_str("None"),
+                Some(v) => {
+                    let c = v.to_array();
+                    let shape: Vec<usize> = c.shape().iter().copied().collect();
+                    let data: Vec<String> = c.as_slice().iter().map(|x| int(*x)).collect();
+                    out.push_str(&format!("S{} D{}", fmt_list(&shape), data.join(";")));
+                    let n: usize = shape.iter().product();
+                    let mut got = Vec::with_capacity(n);
+                    for flat in 0..n {
+                        let mut idx = vec![0usize; shape.len()];
+                        let mut r = flat;
+                        for k in (0..shape.len()).rev() {
+                            idx[k] = r % shape[k];
+                            r /= shape[k];
+                        }
+                        got.push(match c.get(&idx) {
+                            Some(x) => int(*x),
+                            None => "N".to_string(),
+                        });
+                    }
+                    out.push_str(&format!(" G{}", got.join(";")));
+                    for (b, len) in shape.iter().enumerate() {
+                        match c.get_axis(Axis(b), len - 1) {
+                            Some(w) => {
+                                let items: Vec<String> = w.iter().map(|x| int(*x)).collect();
+                                out.push_str(&format!(" A{}", if items.is_empty() { "-".to_string() } else { items.join(";") }));
+                            }
+                            None => out.push_str(" AN"),
+                        }
+                    }
+                }
+            }
+        }
         // sum SHAPE a DATA
         "sum" => {
             let shape = parse_list(toks[1]);
